@@ -58,6 +58,8 @@ def classify(detail):
         m2 = re.search(r"copydef \|-> (\d+)", detail)
         if m2 and int(m2.group(1)) > 0:
             cls = "C04"          # a deferred publish queued for immediate delivery on one of its channels
+    if ev == "KCmd" and re.search(r'cmd \|-> "TOUCH"', detail):
+        cls = "C04+C02"      # a TOUCH answered without error that did not restart the message's timeout
     if ev == "TTake" and re.search(r'paused \|-> "yes"', detail):
         cls = "C03"
     if ev in ("Send", "HRecv") and re.search(r"att \|-> ", detail):
